@@ -2,6 +2,7 @@
 
 import csv
 import glob
+import io
 import logging
 import os
 import time
@@ -171,11 +172,18 @@ class ResultsAggregator:
 
         """
         start = time.time()
-        text = self._delimiter.join([str(getattr(result, x)) for x in self._get_fields()])
+        text = self._format_row(result)
         self._do_action_under_lock(self._append_result, text)
         duration = time.time() - start
         if duration > 10:
             logger.warning("Appending a result took too long: %s", duration)
+
+    def _format_row(self, result):
+        # Quote fields that contain the delimiter so that the csv reader in _get_results can parse them.
+        buf = io.StringIO()
+        writer = csv.writer(buf, delimiter=self._delimiter, lineterminator="")
+        writer.writerow([str(getattr(result, x)) for x in self._get_fields()])
+        return buf.getvalue()
 
     def _append_result(self, text):
         with open(self._filename, "a") as f_out:
@@ -189,7 +197,7 @@ class ResultsAggregator:
         assert not self._is_node
         with open(self._filename, "a") as f_out:
             for result in results:
-                text = self._delimiter.join([str(getattr(result, x)) for x in self._get_fields()])
+                text = self._format_row(result)
                 f_out.write(text)
                 f_out.write("\n")
 
